@@ -631,6 +631,19 @@ pub fn c04(out: &mut dyn Write, tier: &str, rng: &mut Rng, st: &mut Stats) {
             }
         }
     }
+    // long lists (9 to 20 entries, beyond any block size): variables with repetition, in any order
+    let nlong = if thorough { 3000 } else { 120 };
+    for i in 0..nlong {
+        let len = [9usize, 10, 15, 16, 17, 18, 20, 8][i % 8];
+        let vars = rand_vars(rng, 4, 7);
+        let f = from_tt(rng.below(65536), &vars);
+        let vs: Vec<usize> = (0..len).map(|_| rng.below(8) as usize).collect();
+        for q in ["exists", "all"] {
+            let r = if q == "exists" { env.exists(vs.clone(), Rc::clone(&f)) } else { env.all(vs.clone(), Rc::clone(&f)) };
+            writeln!(out, "C04|{}|{}|{}|{}", q, show_nats(&vs), show(&f), show(&r)).unwrap();
+            st.hit("q.long-list");
+        }
+    }
     // deep functions: lists that reach across the 64th and the 128th variable
     for (i, f) in deep_functions(tier, rng).into_iter().enumerate() {
         if !thorough && i >= 24 { break; }
